@@ -1,9 +1,12 @@
 """C05 — unseen data is given fitted labels or rejected, never passed through."""
-from harness import k_qualitative, k_transform
+from harness import k_api, k_qualitative, k_transform
 
 
 def obligations(tier):
+    quick = tier == "quick"
     return [
+        k_api.obligation(tier, {"C05"}, "O5.2 end to end: after complete fits an unseen finite value gets a fitted label; unexpected NaN -> AssertionError naming the feature",
+                         ["BinaryCarver", "Discretizer"], ns=[3] if quick else [3, 4], max_pats=6 if quick else 14),
         k_transform.obligation(tier, {"C05"}, "O5.1 quantitative: every finite real gets a fitted label; unexpected NaN -> AssertionError naming the feature; empty/single-row frames"),
         k_qualitative.obligation(tier, {"C05"}, "O5.3 qualitative: unseen category -> default group or AssertionError naming the feature; NaN where none was fitted -> AssertionError"),
     ]
